@@ -2,6 +2,7 @@ package yqlib
 
 import (
 	"bufio"
+	"errors"
 	"fmt"
 	"io"
 	"os"
@@ -53,6 +54,10 @@ func NewMultiPrinterWriter(expression *ExpressionNode, format *Format) PrinterWr
 }
 
 func (sp *multiPrintWriter) GetWriter(node *CandidateNode) (*bufio.Writer, error) {
+	if node == nil {
+		// asked for by the text that follows the front matter (--front-matter=process): there is no result to name a file after
+		return nil, errors.New("the text after the front matter cannot be written when the results are split into files (--split-exp)")
+	}
 	name := ""
 
 	indexVariableNode := CandidateNode{Kind: ScalarNode, Tag: "!!int", Value: fmt.Sprintf("%v", sp.index)}
